@@ -393,6 +393,89 @@ func genC07(e *emitter, r *rng, tier string) {
 	}
 }
 
+// genC07History: views derived AFTER the parent has been read to its end (all digits memoized,
+// the producer finished), with limits at and around the exact length; and a narrower child view
+// traversed (also backward) BEFORE its parent and siblings. What a view delivers must depend on
+// neither.
+func genC07History(e *emitter, r *rng, tier string) {
+	n := 60
+	if tier == "thorough" {
+		n = 600
+	}
+	for i := 0; i < n; i++ {
+		L := r.pick([]int{1, 2, 3, 5, 50, 99, 100, 101, 200})
+		var ns numSpec
+		switch r.intn(3) {
+		case 0:
+			ns = genNumber(L, r.rangeInt(-2, 4), false)
+		case 1:
+			// an exact square root with a few digits: Sqrt(k*k)
+			k := 2 + r.intn(997)
+			for k%10 == 0 {
+				k++
+			}
+			L = len(fmt.Sprint(k))
+			ns = numSpec{desc: fmt.Sprintf("S:%d:1", k*k), length: -2, allV: true}
+		default:
+			ns = genNumber(L, 1, false)
+		}
+		b := newScriptBuilder(r, ns)
+		if r.coin(70) {
+			// read the parent to its end first, by some method
+			switch r.intn(4) {
+			case 0:
+				b.add("fwd:0:%d", L+50)
+			case 1:
+				b.add("at:0:%d", L+r.intn(3))
+			case 2:
+				b.add("back:0:%d", L+50)
+			default:
+				b.add("nd:0")
+			}
+		}
+		add := func(stmt string, lo, hi int) int {
+			b.stmts = append(b.stmts, stmt)
+			b.handles = append(b.handles, hinfo{lo, hi})
+			return len(b.handles) - 1
+		}
+		var hs []int
+		for _, x := range []int{L - 1, L, L + 1, L - 2} {
+			if x < 0 {
+				continue
+			}
+			if r.coin(50) {
+				hs = append(hs, add(fmt.Sprintf("we:0:%d", x), 0, x))
+			} else {
+				hs = append(hs, add(fmt.Sprintf("wsig:0:%d", x), 0, x))
+			}
+		}
+		// a narrower child of the first view, and a started sibling
+		if len(hs) > 0 && L >= 3 {
+			c := add(fmt.Sprintf("we:%d:%d", hs[0], max(L-3, 1)), 0, max(L-3, 1))
+			hs = append([]int{c}, hs...) // the child is traversed first
+			hs = append(hs, add(fmt.Sprintf("ws:%d:%d", hs[1], 1), 1, L-1))
+		}
+		for pass := 0; pass < 2; pass++ {
+			for _, h := range hs {
+				if r.coin(50) {
+					b.add("back:%d:400", h)
+					b.add("fwd:%d:400", h)
+				} else {
+					b.add("fwd2:%d:400", h)
+					b.add("back:%d:400", h)
+				}
+			}
+			b.add("fwd:0:400")
+			b.add("back:0:400")
+		}
+		for h := range b.handles {
+			b.add("exp:%d", h)
+			b.add("zero:%d", h)
+		}
+		b.emit(e, "C07.history")
+	}
+}
+
 func genC17(e *emitter, r *rng, tier string) {
 	n := 800
 	if tier == "thorough" {
@@ -432,6 +515,6 @@ func genC17(e *emitter, r *rng, tier string) {
 
 func init() {
 	groups["C04"] = genC04
-	groups["C07"] = genC07
+	groups["C07"] = func(e *emitter, r *rng, tier string) { genC07(e, r, tier); genC07History(e, r, tier) }
 	groups["C17"] = genC17
 }
